@@ -3,7 +3,7 @@
    with and the CHECKERS that do the comparing (model/Check18.v, extracted and run on every output = translation validation);
    the implementations themselves are tied by the differential runs of ./check C18. *)
 From Coq Require Import ZArith List Bool Lia.
-From DG Require Import CaseFormat ProtoWireRef ThriftWire ThriftWireProofs Json Num JsonProofs NumProofs J2T Check18 Check18b C18Proofs.
+From DG Require Import CaseFormat ProtoWireRef ThriftWire ThriftWireProofs Json Num JsonProofs NumProofs J2T Check18 Check18b C18Proofs J2TWalk J2TWalkProofs.
 Import ListNotations.
 Local Open Scope Z_scope.
 
@@ -261,3 +261,17 @@ Theorem C18_pattern_values_increase : forall p emin, 2 <= p -> forall b, 0 <= b 
   FpRound.Wb p emin (b + 1) = FpRound.Wb p emin b + FpRound.Gb p emin b /\ 0 < FpRound.Gb p emin b.
 Proof. intros p emin Hp b Hb. split; [apply FpRound.Wb_succ | apply FpRound.Gb_pos]; assumption. Qed.
 Print Assumptions C18_pattern_values_increase.
+
+(* ---- the PORTABLE converter at algorithm level (re-exported from C02): J2TWalk.walk is the transcription of
+   conv/j2t/impl_fallback.go doRecurse as coded, tied to the portable converter by C02's check 211; on the canonical text of every
+   JSON AST in the spec's domain it computes exactly the spec's bytes.  The native flavours inherit this only through the
+   differential checks 1801 (flavours and portable pairwise) and 1807 (each flavour against the C02 spec). ---- *)
+Theorem C18_portable_walk_refines_spec :
+  forall D o, J2TWalkProofs.walk_ok_opts o = true -> J2TWalkProofs.defs_plain D = true ->
+  forall j t s r b fuel,
+  json_wf j = true -> json_utf8 j = true -> J2TWalkProofs.wdom D t j = true ->
+  j2t_val strict D (J2TWalk.jopts_of o) t s j = Ok b -> stop r = true ->
+  (length (json_print j ++ r) < fuel)%nat ->
+  J2TWalk.walk D o fuel t (json_print j ++ r) = J2TWalk.WOk b r.
+Proof. exact J2TWalkProofs.j2t_walk_refines_spec. Qed.
+Print Assumptions C18_portable_walk_refines_spec.
